@@ -31,6 +31,8 @@ class ClassLevelCache:
     # Note Modules hash *by identity*, so each instance of `Module`,
     # regardless of the similarity of their content, gets its own entry in these sets.
     done: Set[Module] = field(default_factory=set)
+    # The same Modules, in order of completion
+    completed: List[Module] = field(default_factory=list)
     pending: Set[Module] = field(default_factory=set)
     # Modules whose visit raised, and the exception it raised.
     failed: Dict[Module, Exception] = field(default_factory=dict)
@@ -149,6 +151,7 @@ class ElabPass:
         self.stack.pop()
         self.CLASS_LEVEL_CACHE.pending.remove(module)
         self.CLASS_LEVEL_CACHE.done.add(module)
+        self.CLASS_LEVEL_CACHE.completed.append(module)
         return result
 
     def elaborate_module(self, module: Module) -> Module:
